@@ -267,13 +267,14 @@ def loop_shapes():
     """Every combination of: prefix event or none; loop at top level / in an
     AND branch / in an XOR branch; event after the loop or none; body head
     (event; event + inner loop directly in front of the decision; event +
-    inner loop + event; event + AND fork + event; event + XOR fork + event);
+    inner loop + event; event + AND fork + event; event + XOR fork + event;
+    event + AND fork whose two branches end in the same event type);
     break branches with (0), (1), (2), (1,1), (0,1) events or no break at
     all; one or two continuing branches; an event after the decision or
     none.  1320 definitions with distinct names; returned as (tag, ast)."""
     import itertools
     out = []
-    heads = ("ev", "loop_adjacent", "loop_sep", "and", "xor")
+    heads = ("ev", "loop_adjacent", "loop_sep", "and", "xor", "and_same_end")
     breaks = ((), (0,), (1,), (2,), (1, 1), (0, 1))
     for pre, ctx, post, head, brk, cont, tail in itertools.product(
             (1, 0), ("top", "AND", "XOR"), (1, 0), heads, breaks, (1, 2),
@@ -293,6 +294,13 @@ def loop_shapes():
             body += [Loop(Seq((ev(),))), ev()]
         elif head in ("and", "xor"):
             body += [Fork(head.upper(), (Seq((ev(),)), Seq((ev(),)))), ev()]
+        elif head == "and_same_end":
+            # both parallel branches finish with the same event type (the
+            # only members of the family with a repeated name)
+            same = ev()
+            body += [Fork("AND", (Seq((ev(), same)), Seq((ev(), same))))]
+            if brk:
+                body.append(ev())
         if brk:
             branches = [Seq((ev(),)) for _ in range(cont)]
             for k in brk:
